@@ -240,6 +240,11 @@ func (e *Exec) callEffects(ef *effects, cc *ssa.CallCommon, depth int) {
 		for i, n := range con.Params {
 			env.vars[n] = TV{e.symbolic(nil, con.ParamTypes[i], "dummy"), con.ParamTypes[i]}
 		}
+		if con.IfaceRecvName != "" && len(con.Params) > 0 {
+			if _, taken := env.vars[con.IfaceRecvName]; !taken {
+				env.vars[con.IfaceRecvName] = TV{e.makeInterface(tmp, con.ParamTypes[0], env.vars[con.Params[0]].V), con.IfaceRecvType}
+			}
+		}
 		func() {
 			defer func() {
 				if r := recover(); r != nil {
